@@ -5,12 +5,15 @@ import ShVerif.Expect.C27Writes
 /-
   C27 — Subshells cannot change the parent shell.  Property theorems.
 
-  `isolation_statement` is the property for the code as it is today; it is FALSE
-  (`isolation_counterexample`: `a=(x y z); ( a+=Q )`, vars.go:418/420 writes the parent's backing
-  array).  `isolation_partial` proves it with the exact extra hypothesis (no `name+=word` onto an
-  indexed array whose storage predates the subshell); `isolation_fixed` proves the full
-  statement, without extra hypothesis, for the repaired `assignVal` (clone before `+=`,
-  props/C27.fixes/assignval-clone.diff).
+  `isolation` is the property for the code as it is (`fx = true`: `assignVal` clones before `+=`,
+  commit db7f3b5): full statement, no extra hypothesis.  `frame` is the invariant behind it.
+  `vocabulary_complete` ties the operation vocabulary to the regenerated write-site table.
+
+  The `pinned_…` material documents the tree as it was before db7f3b5 (`fx = false`: `a+=s` on an
+  indexed array wrote `prev.List[0]` / called `SetIndexedElem(prev.List, …)` on the uncloned
+  slice): the full statement was false (`pinned_counterexample`: `a=(x y z); ( a+=Q )`), and held
+  under the extra hypothesis of `pinned_isolation_partial`.  The harness ties against that variant
+  only if it detects the old behaviour again.
 -/
 namespace ShVerif.C27
 open ShVerif ShVerif.L1
@@ -28,18 +31,20 @@ instance (fx : Bool) (g : Grows) (h : Heap) (p : Runner) (bg : Bool) (ops : List
     Decidable (IsolatedRun fx g h p bg ops) := by
   unfold IsolatedRun; split <;> infer_instance
 
-/-- The property itself, for today's code: every well-formed parent state, every growth policy,
-    foreground and background subshells, every sequence of modelled operations. -/
-def isolation_statement : Prop :=
+/-- PINNED (tree before db7f3b5): the property for the old `assignVal`; false, see
+    `pinned_counterexample`. -/
+def pinned_isolation_statement : Prop :=
   ∀ (g : Grows) (h : Heap) (p : Runner) (bg : Bool) (ops : List Op), WF p h → IsolatedRun false g h p bg ops
 
-/-- The hypothesis of `isolation_partial`, stated on the child as `subshell` creates it. -/
+/-- PINNED: the hypothesis of `pinned_isolation_partial`, stated on the child as `subshell` creates it. -/
 def SafeChild (g : Grows) (h : Heap) (p : Runner) (bg : Bool) (ops : List Op) : Prop :=
   match subshell g h p bg with
   | some c => SafeRun h.sizes g c.1 c.2 ops
   | none => True
 
-/-! ### The counter-example: `a=(x y z); ( a+=Q )` -/
+/-! ### PINNED — the counter-example for the old code: `a=(x y z); ( a+=Q )`
+
+(the state `cexHeap`/`cexParent` also serves the non-vacuity examples of `isolation`) -/
 
 def exactGrow : Grows := { strs := fun _ _ n => n, ints := fun _ _ n => n }
 
@@ -79,23 +84,23 @@ instance (p : Runner) (h : Heap) : Decidable (WF p h) := by unfold WF; infer_ins
 
 theorem cex_wf : WF cexParent cexHeap := by decide
 
-/-- The property fails on today's code: in the model of `( a+=Q )` the parent's `a[0]` becomes
-    `xQ`. -/
-theorem isolation_counterexample : ¬ isolation_statement := by
+/-- PINNED: the property failed on the old code: in its model of `( a+=Q )` the parent's `a[0]`
+    becomes `xQ`. -/
+theorem pinned_counterexample : ¬ pinned_isolation_statement := by
   intro hst
   have h := hst exactGrow cexHeap cexParent false cexOps cex_wf
   revert h
   decide
 
-/-- The same in a background subshell (`$( )`, pipelines, `&`). -/
-theorem isolation_counterexample_bg : ¬ IsolatedRun false exactGrow cexHeap cexParent true cexOps := by
+/-- PINNED: the same in a background subshell (`$( )`, pipelines, `&`). -/
+theorem pinned_counterexample_bg : ¬ IsolatedRun false exactGrow cexHeap cexParent true cexOps := by
   decide
 
-/-! ### What is true of today's code -/
+/-! ### PINNED — what was true of the old code -/
 
-/-- Today's code isolates the parent for every state, growth policy and operation sequence in
+/-- PINNED: the old code isolated the parent for every state, growth policy and operation sequence in
     which no `name+=word` hits an indexed array whose element storage predates the subshell. -/
-theorem isolation_partial (g : Grows) (h : Heap) (p : Runner) (bg : Bool) (ops : List Op) (wf : WF p h)
+theorem pinned_isolation_partial (g : Grows) (h : Heap) (p : Runner) (bg : Bool) (ops : List Op) (wf : WF p h)
     (safe : SafeChild g h p bg ops) : IsolatedRun false g h p bg ops := by
   unfold IsolatedRun childRun
   unfold SafeChild at safe
@@ -108,11 +113,12 @@ theorem isolation_partial (g : Grows) (h : Heap) (p : Runner) (bg : Bool) (ops :
     | none => trivial
     | some x => exact childRun_observe wf hs (Or.inr ⟨rfl, safe⟩) hr
 
-/-! ### The repaired code: full isolation -/
+/-! ### The property -/
 
-/-- With `assignVal` cloning before `+=` the property holds at full strength: every well-formed
-    parent state, every growth policy, foreground and background, every operation sequence. -/
-theorem isolation_fixed (g : Grows) (h : Heap) (p : Runner) (bg : Bool) (ops : List Op) (wf : WF p h) :
+/-- Subshells cannot change the parent shell: for every well-formed parent state, every slice growth
+    policy, foreground and background subshells and every sequence of modelled operations run in
+    the child, the parent's observable state is unchanged. -/
+theorem isolation (g : Grows) (h : Heap) (p : Runner) (bg : Bool) (ops : List Op) (wf : WF p h) :
     IsolatedRun true g h p bg ops := by
   unfold IsolatedRun childRun
   cases hs : subshell g h p bg with
@@ -126,7 +132,7 @@ theorem isolation_fixed (g : Grows) (h : Heap) (p : Runner) (bg : Bool) (ops : L
 /-- The invariant behind it (also what C32 needs): the child never writes a heap object that
     existed when the subshell was created — every old array, map and overlay is still there and
     unchanged, whether or not the parent can reach it. -/
-theorem frame_fixed (g : Grows) (h : Heap) (p : Runner) (bg : Bool) (ops : List Op) (x : Heap × Runner)
+theorem frame (g : Grows) (h : Heap) (p : Runner) (bg : Bool) (ops : List Op) (x : Heap × Runner)
     (e : childRun true g h p bg ops = some x) :
     (∀ i, i < h.strs.length → x.1.strs[i]? = h.strs[i]?) ∧
     (∀ i, i < h.ints.length → x.1.ints[i]? = h.ints[i]?) ∧
@@ -147,8 +153,8 @@ theorem frame_fixed (g : Grows) (h : Heap) (p : Runner) (bg : Bool) (ops : List 
       fun i hi => by rw [fr.scopes.getElem? hi], fun i hi => fr.fmaps.getElem? hi,
       fun i hi => fr.amaps.getElem? hi⟩
 
-/-- The same frame for today's code under the hypothesis of `isolation_partial`. -/
-theorem frame_partial (g : Grows) (h : Heap) (p : Runner) (bg : Bool) (ops : List Op) (x : Heap × Runner)
+/-- PINNED: the same frame for the old code under the hypothesis of `pinned_isolation_partial`. -/
+theorem pinned_frame_partial (g : Grows) (h : Heap) (p : Runner) (bg : Bool) (ops : List Op) (x : Heap × Runner)
     (safe : SafeChild g h p bg ops) (e : childRun false g h p bg ops = some x) :
     (∀ i, i < h.strs.length → x.1.strs[i]? = h.strs[i]?) ∧
     (∀ i, i < h.ints.length → x.1.ints[i]? = h.ints[i]?) ∧
@@ -209,8 +215,8 @@ instance (g : Grows) (h : Heap) (p : Runner) (bg : Bool) (ops : List Op) : Decid
   unfold SafeChild; split <;> infer_instance
 
 
-/-- The hypotheses are satisfiable and the runs do not end in `none`: on the counter-example's
-    parent the repaired code runs `a+=Q` to completion, and the parent still sees `x y z`. -/
+/-- The hypotheses are satisfiable and the runs do not end in `none`: on the pinned counter-example's
+    parent the code runs `a+=Q` to completion, and the parent still sees `x y z`. -/
 example : WF cexParent cexHeap ∧ (childRun true exactGrow cexHeap cexParent false cexOps).isSome = true ∧
     (childRun false exactGrow cexHeap cexParent false cexOps).isSome = true := by decide
 
